@@ -170,7 +170,8 @@ class FullGaussianObservationModel(GaussianObservationModel):
         # TODO? by linearity couldn't we only require `-2*y_x_model + model_x_model` as summary stat?
         # and couldn't we even collect the already summed version of it?
         s1 = sum_dim(y_x_model)
-        s2 = sum_dim(model_x_model)
+        # use the weights of `y` (carried by `y_x_model`) so that model values at unobserved entries are not counted
+        s2 = sum_dim(y_x_model.valued(WeightedTensor.get_filled_value_and_weight(model_x_model)[0]))
         noise_var = (y_l2 - 2 * s1 + s2) / n_obs.float()
         return compute_std_from_variance(
             noise_var,
